@@ -29,6 +29,7 @@ package nodeslo
 //     (each of these makes "is the field set?" ambiguous); the node bandwidth annotation is not set.
 
 import (
+	"context"
 	"encoding/json"
 	"fmt"
 	"reflect"
@@ -39,10 +40,12 @@ import (
 	corev1 "k8s.io/api/core/v1"
 	"k8s.io/apimachinery/pkg/api/resource"
 	metav1 "k8s.io/apimachinery/pkg/apis/meta/v1"
+	"k8s.io/apimachinery/pkg/runtime"
+	"k8s.io/apimachinery/pkg/types"
 	"k8s.io/apimachinery/pkg/util/intstr"
-	"k8s.io/client-go/kubernetes/scheme"
 	"k8s.io/client-go/tools/record"
 	"k8s.io/klog/v2"
+	ctrl "sigs.k8s.io/controller-runtime"
 	"sigs.k8s.io/controller-runtime/pkg/client/fake"
 
 	"github.com/koordinator-sh/koordinator/apis/configuration"
@@ -857,42 +860,712 @@ func c20Expect(names []string, layers []c20Leaves) c20Want {
 // ---------------------------------------------------------------------------------------------
 // the workload
 
+// c20Obs is what one NodeSLOSpec (freshly computed, or read back from the API) delivers.
+type c20Obs struct {
+	secs map[string]c20Leaves
+	apps []string
+	ext  int
+}
+
+func c20Observe(spec *slov1alpha1.NodeSLOSpec) *c20Obs {
+	o := &c20Obs{secs: map[string]c20Leaves{}}
+	for _, sec := range c20Sections {
+		if sec.typ == nil {
+			o.apps = c20CanonApps(spec.HostApplications)
+		} else {
+			o.secs[sec.name] = c20FlattenAny(sec.get(spec))
+		}
+	}
+	if spec.Extensions != nil {
+		o.ext = len(spec.Extensions.Object)
+	}
+	return o
+}
+
+// diff returns "" when both observations deliver the same leaves, else the first difference.
+func (o *c20Obs) diff(p *c20Obs) (section, desc string) {
+	for _, sec := range c20Sections {
+		if sec.typ == nil {
+			if !c20SameApps(o.apps, p.apps) {
+				return sec.name, fmt.Sprintf("host applications %v vs %v", o.apps, p.apps)
+			}
+			continue
+		}
+		a, b := o.secs[sec.name], p.secs[sec.name]
+		for _, k := range c20SortedKeys(a) {
+			if bv, ok := b[k]; !ok || bv != a[k] {
+				return sec.name, fmt.Sprintf("leaf %s: %q vs %q (present=%v)", k, a[k], bv, ok)
+			}
+		}
+		for _, k := range c20SortedKeys(b) {
+			if _, ok := a[k]; !ok {
+				return sec.name, fmt.Sprintf("leaf %s: absent vs %q", k, b[k])
+			}
+		}
+	}
+	return "", ""
+}
+
+// pureWithdrawal: o (now) delivers a strict subset of the leaves of p (before), all with unchanged
+// values, i.e. the step only WITHDREW settings from this node.
+func (o *c20Obs) pureWithdrawal(p *c20Obs) bool {
+	fewer := false
+	for name, a := range o.secs {
+		b := p.secs[name]
+		for k, v := range a {
+			if bv, ok := b[k]; !ok || bv != v {
+				return false
+			}
+		}
+		if len(a) < len(b) {
+			fewer = true
+		}
+	}
+	if !c20SameApps(o.apps, p.apps) {
+		if len(o.apps) != 0 {
+			return false
+		}
+		fewer = true
+	}
+	return fewer
+}
+
 type c20Node struct {
-	node     *corev1.Node
-	prev     map[string]c20Leaves // per section: leaves delivered after the previous update (strategy sections)
-	prevApps []string
-	prevSpec *slov1alpha1.NodeSLOSpec
-	havePrev bool
+	idx        int
+	node       *corev1.Node // model copy handed to getNodeSLOSpec; same labels/annotations as the object in the fake API
+	ann        string       // value of the node bandwidth annotation, "" when not annotated
+	annLeaf    string       // the leaf value the annotation stands for
+	annEver    map[string]bool
+	prev       *c20Obs // computed after the previous step
+	prevSpec   *slov1alpha1.NodeSLOSpec
+	prevStored *c20Obs // stored NodeSLO.Spec after the previous step
+	hasSLO     bool
 }
 
 type c20SecState struct {
 	eff       *c20Eff
 	lastText  string
-	lastState string // absent | empty | partial | full | malformed
+	lastState string // absent | empty | partial | full | malformed | withdrawn
 	prevState string // state of the update before
 	hasText   bool
 }
 
 var c20States = []string{"absent", "empty", "partial", "full", "malformed", "same"}
 
+type c20Run struct {
+	c            *kit.Case
+	r            *kit.Rand
+	defaults     map[string]c20Leaves
+	st           map[string]*c20SecState
+	nodes        []*c20Node
+	step         int
+	stepKind     string
+	malformedNow map[string]bool
+	h            *SLOCfgHandlerForConfigMapEvent
+	rec          *NodeSLOReconciler
+
+	sawMalformedAfterGood, sawDecisiveFirstWins bool
+}
+
+func c20AnnValue(r *kit.Rand, idx int) string {
+	// per-node sentinel band, disjoint from every band used inside the ConfigMap (1M..1000M)
+	return fmt.Sprintf("%dM", 2000+1000*idx+r.Intn(1000))
+}
+
+func (n *c20Node) setAnn(v string) {
+	n.ann, n.annLeaf = v, ""
+	if v != "" {
+		q := resource.MustParse(v)
+		n.annLeaf = fmt.Sprintf("q:%d", q.MilliValue())
+		n.annEver[n.annLeaf] = true
+	}
+}
+
+// install: s.lastText / s.hasText / s.lastState have been set for this update; run the generator
+// self check and move the oracle's effective layers.
+func (x *c20Run) install(sec *c20Section) {
+	c, s := x.c, x.st[sec.name]
+	state := s.lastState
+	c.Count("state_"+sec.name+"_"+state, 1)
+	if !s.hasText {
+		s.eff = &c20Eff{}
+		c.Op("step %d %s state=absent", x.step, sec.name)
+		return
+	}
+	typed := reflect.New(sec.cfgTyp)
+	perr := json.Unmarshal([]byte(s.lastText), typed.Interface())
+	if state == "malformed" {
+		if perr == nil {
+			c.Harness("generator: %s text meant to be malformed parses: %s", sec.name, s.lastText)
+		}
+		x.malformedNow[sec.name] = true
+		if s.eff.nonEmpty {
+			c.Count("malformed_after_good", 1)
+			c.Count("malformed_after_good_"+sec.name, 1)
+			x.sawMalformedAfterGood = true
+		} else {
+			c.Count("malformed_after_defaults", 1)
+		}
+		// effective layers stay as they are
+	} else {
+		if perr != nil {
+			c.Harness("generator: %s text meant to be valid does not parse (%v): %s", sec.name, perr, s.lastText)
+		}
+		eff, err := c20Parse(sec, s.lastText)
+		if err != nil {
+			c.Harness("oracle cannot parse valid %s text (%v): %s", sec.name, err, s.lastText)
+		}
+		s.eff = eff
+		c.Count("leaves_set_cluster_"+sec.name, len(eff.cluster)+len(eff.cluApps))
+		for _, e := range eff.entries {
+			c.Count("leaves_set_entry_"+sec.name, len(e.leaves)+len(e.apps))
+		}
+		c.Count("entries_"+sec.name, len(eff.entries))
+	}
+	c.Op("step %d %s state=%s text=%s", x.step, sec.name, state, s.lastText)
+}
+
+// genUpdate: every section independently re-rolled.
+func (x *c20Run) genUpdate() {
+	r, c := x.r, x.c
+	for _, sec := range c20Sections {
+		s := x.st[sec.name]
+		s.prevState = s.lastState
+		state := c20States[r.Weighted(13, 8, 34, 10, 22, 13)]
+		if state == "same" {
+			if !s.hasText { // nothing to repeat
+				s.lastState = "absent"
+			}
+			c.Count("state_"+sec.name+"_repeated", 1)
+		} else {
+			switch state {
+			case "absent":
+				s.hasText = false
+			case "empty":
+				forms := []string{"{}", "null", " { } "}
+				if sec.typ != nil {
+					forms = append(forms, `{"clusterStrategy":{}}`, `{"nodeStrategies":[]}`, `{"clusterStrategy":{},"nodeStrategies":[]}`)
+				} else {
+					forms = append(forms, `{"applications":[]}`, `{"nodeConfigs":[]}`)
+				}
+				s.lastText, s.hasText = kit.Pick(r, forms), true
+			case "partial":
+				s.lastText, s.hasText = c20GenValid(r, sec, false), true
+			case "full":
+				s.lastText, s.hasText = c20GenValid(r, sec, true), true
+			case "malformed":
+				var kind string
+				s.lastText, kind = c20GenMalformed(r, sec)
+				s.hasText = true
+				c.Count("malformed_kind_"+kind, 1)
+			}
+			s.lastState = state
+		}
+		x.install(sec)
+	}
+}
+
+// c20DropMembers deletes 1-3 members somewhere inside obj (never the keys in keep).
+func c20DropMembers(r *kit.Rand, obj map[string]any, keep map[string]bool) bool {
+	done := false
+	for n := r.Range(1, 3); n > 0; n-- {
+		if c20DropOne(r, obj, keep, 0) {
+			done = true
+		}
+	}
+	return done
+}
+
+func c20DropOne(r *kit.Rand, obj map[string]any, keep map[string]bool, depth int) bool {
+	var keys []string
+	for k := range obj {
+		if !keep[k] {
+			keys = append(keys, k)
+		}
+	}
+	if len(keys) == 0 {
+		return false
+	}
+	sort.Strings(keys)
+	k := kit.Pick(r, keys)
+	switch v := obj[k].(type) {
+	case map[string]any:
+		if len(v) > 0 && depth < 4 && r.Pct(65) && c20DropOne(r, v, nil, depth+1) {
+			return true
+		}
+	case []any:
+		if len(v) > 0 && r.Pct(60) {
+			if e, ok := v[r.Intn(len(v))].(map[string]any); ok && r.Pct(50) && c20DropOne(r, e, nil, depth+1) {
+				return true
+			}
+			if len(v) > 1 { // drop the last element
+				obj[k] = v[:len(v)-1]
+				return true
+			}
+		}
+	}
+	delete(obj, k)
+	return true
+}
+
+// c20Withdraw derives from a parseable section text one that only takes settings away.
+func c20Withdraw(r *kit.Rand, sec *c20Section, text string) (string, string, bool) {
+	var env map[string]any
+	if err := json.Unmarshal([]byte(text), &env); err != nil || env == nil {
+		return "", "", false
+	}
+	entKey, cluKey := "nodeStrategies", "clusterStrategy"
+	if sec.typ == nil {
+		entKey, cluKey = "nodeConfigs", "applications"
+	}
+	ents, _ := env[entKey].([]any)
+	profile := map[string]bool{"name": true, "nodeSelector": true}
+	for _, try := range r.Perm(4) {
+		switch try {
+		case 0: // a node entry is removed
+			if len(ents) > 0 {
+				i := r.Intn(len(ents))
+				env[entKey] = append(append([]any{}, ents[:i]...), ents[i+1:]...)
+				return c20Marshal(r, env), "remove-entry", true
+			}
+		case 1: // optional cluster-wide settings are dropped
+			if sec.typ != nil {
+				if clu, ok := env[cluKey].(map[string]any); ok && c20DropMembers(r, clu, nil) {
+					return c20Marshal(r, env), "drop-cluster-members", true
+				}
+			} else if apps, ok := env[cluKey].([]any); ok && len(apps) > 0 {
+				i := r.Intn(len(apps))
+				env[cluKey] = append(append([]any{}, apps[:i]...), apps[i+1:]...)
+				return c20Marshal(r, env), "drop-cluster-application", true
+			}
+		case 2: // settings of one node entry are dropped
+			if len(ents) > 0 {
+				e, _ := ents[r.Intn(len(ents))].(map[string]any)
+				if e != nil && c20DropMembers(r, e, profile) {
+					return c20Marshal(r, env), "drop-entry-members", true
+				}
+			}
+		case 3: // the whole cluster-wide layer is removed
+			if _, ok := env[cluKey]; ok {
+				delete(env, cluKey)
+				return c20Marshal(r, env), "remove-cluster-layer", true
+			}
+		}
+	}
+	return "", "", false
+}
+
+// genWithdraw: 1-2 sections lose settings (a member, an entry, the cluster layer, the whole key),
+// every other section keeps its text. Returns false when no section has anything to withdraw.
+func (x *c20Run) genWithdraw() bool {
+	r, c := x.r, x.c
+	var cand []*c20Section
+	for _, sec := range c20Sections {
+		s := x.st[sec.name]
+		if s.hasText && s.lastState != "malformed" && s.eff.nonEmpty {
+			cand = append(cand, sec)
+		}
+	}
+	if len(cand) == 0 {
+		return false
+	}
+	kit.Shuffle(r, cand)
+	chosen := map[string]string{}
+	for _, sec := range cand[:r.Range(1, min(2, len(cand)))] {
+		s := x.st[sec.name]
+		if r.Pct(20) {
+			chosen[sec.name] = "remove-section"
+			continue
+		}
+		if text, op, ok := c20Withdraw(r, sec, s.lastText); ok {
+			chosen[sec.name] = op
+			s.lastText = text
+		}
+	}
+	if len(chosen) == 0 {
+		return false
+	}
+	for _, sec := range c20Sections {
+		s := x.st[sec.name]
+		s.prevState = s.lastState
+		if op, ok := chosen[sec.name]; ok {
+			c.Count("withdraw_op_"+op, 1)
+			if op == "remove-section" {
+				s.hasText, s.lastState = false, "absent"
+			} else {
+				s.lastState = "withdrawn"
+			}
+		} else {
+			if !s.hasText {
+				s.lastState = "absent"
+			}
+			c.Count("state_"+sec.name+"_repeated", 1)
+		}
+		x.install(sec)
+	}
+	return true
+}
+
+func (x *c20Run) sync() {
+	c := x.c
+	data := map[string]string{}
+	for _, sec := range c20Sections {
+		if s := x.st[sec.name]; s.hasText {
+			data[sec.key] = s.lastText
+		}
+	}
+	if x.r.Pct(30) { // unrelated keys of the same ConfigMap
+		data[configuration.ColocationConfigKey] = kit.Pick(x.r, []string{`{"enable":true}`, "invalid_content", "{}"})
+	}
+	cm := &corev1.ConfigMap{
+		TypeMeta:   metav1.TypeMeta{Kind: "ConfigMap", APIVersion: "v1"},
+		ObjectMeta: metav1.ObjectMeta{Name: sloconfig.SLOCtrlConfigMap, Namespace: sloconfig.ConfigNameSpace, ResourceVersion: fmt.Sprint(x.step + 1)},
+		Data:       data,
+	}
+	changed := x.h.syncNodeSLOSpecIfChanged(cm)
+	c.Op("step %d syncConfig -> changed=%v", x.step, changed)
+	c.Count("sync_calls", 1)
+	if changed {
+		c.Count("sync_changed", 1)
+	}
+}
+
+// relabel: 1-2 nodes get other labels and/or another / no bandwidth annotation (Node update in the API).
+func (x *c20Run) relabel() {
+	r, c := x.r, x.c
+	for _, ni := range r.Perm(len(x.nodes))[:r.Range(1, 2)] {
+		n := x.nodes[ni]
+		lbl := map[string]string{}
+		for k, v := range n.node.Labels {
+			lbl[k] = v
+		}
+		op := r.Intn(4)
+		switch op {
+		case 0: // add a label / change its value
+			lbl[kit.Pick(r, c20LabelKeys)] = kit.Pick(r, c20LabelVals)
+		case 1: // remove a label
+			delete(lbl, kit.Pick(r, c20LabelKeys))
+		case 2: // new label set
+			lbl = map[string]string{}
+			for _, k := range c20LabelKeys {
+				if r.Pct(55) {
+					lbl[k] = kit.Pick(r, c20LabelVals)
+				}
+			}
+		}
+		if !reflect.DeepEqual(lbl, map[string]string(n.node.Labels)) && !(len(lbl) == 0 && len(n.node.Labels) == 0) {
+			c.Count("node_relabels", 1)
+		}
+		if op == 3 || r.Pct(30) {
+			switch {
+			case n.ann == "":
+				n.setAnn(c20AnnValue(r, n.idx))
+			case r.Bool():
+				n.setAnn("")
+			default:
+				n.setAnn(c20AnnValue(r, n.idx))
+			}
+			c.Count("node_annotation_changes", 1)
+		}
+		obj := &corev1.Node{}
+		if err := x.rec.Client.Get(context.TODO(), types.NamespacedName{Name: n.node.Name}, obj); err != nil {
+			c.Harness("fake API: get node: %v", err)
+		}
+		obj.Labels = lbl
+		if n.ann != "" {
+			obj.Annotations = map[string]string{apiext.AnnotationNodeBandwidth: n.ann}
+		} else {
+			obj.Annotations = nil
+		}
+		if err := x.rec.Client.Update(context.TODO(), obj); err != nil {
+			c.Harness("fake API: update node: %v", err)
+		}
+		n.node = obj.DeepCopy()
+		c.Op("step %d relabel node-%d labels=%v bandwidth-annotation=%q", x.step, ni, lbl, n.ann)
+	}
+}
+
+// check compares one delivered spec (computed, or stored NodeSLO.Spec) with the oracle.
+func (x *c20Run) check(n *c20Node, o *c20Obs, prev *c20Obs, stored bool) {
+	c := x.c
+	ni := n.idx
+	for _, sec := range c20Sections {
+		s := x.st[sec.name]
+		m := s.eff.matches(n.node.Labels)
+		if !stored {
+			switch {
+			case len(m) == 0:
+				c.Count("node_matched_by_0_entries", 1)
+			case len(m) == 1:
+				c.Count("node_matched_by_1_entry", 1)
+			default:
+				c.Count("node_matched_by_2plus_entries", 1)
+			}
+		}
+		phase := "layering"
+		if x.malformedNow[sec.name] {
+			phase = "after-malformed"
+		}
+		if stored {
+			phase = "stored-" + phase
+		}
+		if sec.typ == nil {
+			got := o.apps
+			if x.malformedNow[sec.name] && prev != nil {
+				c.Count("keep_old_comparisons", 1)
+				if c20SameApps(got, prev.apps) {
+					// unchanged by the unparseable update: correct; the layering of this value was decided at the previous step
+					c.Count("sections_ok", 1)
+					continue
+				}
+				c.Report("C20/hostapp/"+phase+"/changed", "step %d node-%d labels=%v: host applications changed by an update whose %s text cannot be parsed: before %v, after %v; text=%s",
+					x.step, ni, n.node.Labels, sec.key, prev.apps, got, s.lastText)
+			}
+			var prevApps []string
+			if prev != nil {
+				prevApps = prev.apps
+			}
+			c20CheckApps(c, sec, s.eff, m, got, prevApps, phase, x.step, ni, n, &x.sawDecisiveFirstWins)
+			continue
+		}
+		got := o.secs[sec.name]
+		var prevLeaves c20Leaves
+		if prev != nil {
+			prevLeaves = prev.secs[sec.name]
+		}
+		// expected leaves
+		names := []string{"default"}
+		layers := []c20Leaves{x.defaults[sec.name]}
+		if s.eff.fromText {
+			names, layers = append(names, "cluster"), append(layers, s.eff.cluster)
+			if len(m) > 0 {
+				names, layers = append(names, "entry"), append(layers, s.eff.entries[m[0]].leaves)
+			}
+		}
+		want := c20Expect(names, layers)
+		if sec.name == "system" && n.ann != "" {
+			// documented on getSystemConfigSpec: the node's bandwidth annotation takes higher priority
+			// than the cluster strategy and the node strategy - for THIS node only
+			want.must["totalNetworkBandwidth"], want.mustSrc["totalNetworkBandwidth"] = n.annLeaf, "annotation"
+			c.Count("annotation_overrides_checked", 1)
+		}
+		if !stored && len(m) >= 2 && !reflect.DeepEqual(s.eff.entries[m[0]].leaves, s.eff.entries[m[1]].leaves) {
+			c.Count("first_wins_decisive", 1)
+			x.sawDecisiveFirstWins = true
+		}
+		srcMask := map[string]bool{}
+		nMis := 0
+		// An unparseable update that left the delivered section exactly as it was is correct by the
+		// statement's last clause; whether that unchanged value is the right layering was already
+		// decided (and reported) at the previous step.
+		unchangedAfterMalformed := x.malformedNow[sec.name] && prev != nil && reflect.DeepEqual(got, prevLeaves)
+		mismatch := func(path, wantSrc, wantVal string, gotVal string, present bool) {
+			nMis++
+			if nMis > 3 || unchangedAfterMalformed {
+				return
+			}
+			cls := ""
+			if present && path == "totalNetworkBandwidth" {
+				for _, o := range x.nodes {
+					if o != n && o.annEver[gotVal] {
+						cls = "other-node-annotation"
+					}
+				}
+				if cls == "" && n.annEver[gotVal] {
+					cls = "own-withdrawn-annotation"
+				}
+			}
+			if cls == "" {
+				cls = c20Classify(s.eff, x.defaults[sec.name], m, path, gotVal, present, prevLeaves)
+			}
+			sig := fmt.Sprintf("C20/%s/%s/want-%s-got-%s/%s", sec.name, phase, wantSrc, cls, c20LeafName(path))
+			first := "none"
+			if len(m) > 0 {
+				first = s.eff.entries[m[0]].name
+			}
+			c.Report(sig, "step %d (%s) node-%d labels=%v bandwidth-annotation=%q section %s leaf %q: want %s value %q, delivered %q (present=%v, looks like: %s); matching entries %v (first=%s); state=%s; effective text or last text=%s",
+				x.step, x.stepKind, ni, n.node.Labels, n.ann, sec.key, path, wantSrc, wantVal, gotVal, present, cls, m, first, s.lastState, s.lastText)
+		}
+		for _, p := range c20SortedKeys(want.must) {
+			c.Count("leaf_comparisons", 1)
+			srcMask[want.mustSrc[p]] = true
+			c.Count("expected_from_"+want.mustSrc[p], 1)
+			gv, ok := got[p]
+			if !ok || gv != want.must[p] {
+				mismatch(p, want.mustSrc[p], want.must[p], gv, ok)
+			}
+		}
+		for _, p := range c20SortedKeys(got) {
+			if _, ok := want.must[p]; ok {
+				continue
+			}
+			c.Count("leaf_comparisons", 1)
+			if mv, ok := want.may[p]; ok && mv == got[p] {
+				c.Count("container_member_kept_from_lower_layer", 1)
+				continue
+			}
+			mismatch(p, "absent", "", got[p], true)
+		}
+		for p := range want.may {
+			if _, ok := got[p]; !ok {
+				c.Count("container_member_of_lower_layer_dropped", 1)
+			}
+		}
+		// leak accounting: leaves set by entries that do not apply to this node
+		for ei := range s.eff.entries {
+			if len(m) > 0 && ei == m[0] {
+				continue
+			}
+			c.Count("leak_probes", len(s.eff.entries[ei].leaves))
+		}
+		if nMis == 0 {
+			c.Count("sections_ok", 1)
+		}
+		// literal keep-old check
+		if x.malformedNow[sec.name] && prev != nil {
+			c.Count("keep_old_comparisons", 1)
+			if !unchangedAfterMalformed {
+				c.Report("C20/"+sec.name+"/"+phase+"/changed", "step %d node-%d labels=%v: section %s delivered to the node changed by an update whose text cannot be parsed.\nbefore: %v\nafter:  %v\ntext=%s",
+					x.step, ni, n.node.Labels, sec.key, c20Show(prevLeaves), c20Show(got), s.lastText)
+			}
+		}
+		mc := len(m)
+		if mc > 2 {
+			mc = 2
+		}
+		c.Seen(sec.name, s.lastState, s.prevState, len(s.eff.entries), mc, srcMask["default"], srcMask["cluster"], srcMask["entry"], srcMask["annotation"], len(want.may) > 0, phase, x.stepKind)
+	}
+	// extensions: no extender is registered in this process, nothing may be delivered
+	if len(globalNodeSLOMergedExtender) == 0 && o.ext != 0 {
+		c.Report("C20/extensions/unexpected", "step %d node-%d: %d extensions delivered without any registered extender", x.step, ni, o.ext)
+	}
+}
+
+func (x *c20Run) compute(n *c20Node) (*slov1alpha1.NodeSLOSpec, *c20Obs) {
+	var old *slov1alpha1.NodeSLOSpec
+	if n.prevSpec != nil && x.r.Bool() {
+		old = n.prevSpec // Reconcile passes the existing NodeSLO spec when the object exists
+	}
+	spec, err := x.rec.getNodeSLOSpec(n.node, old)
+	if err != nil || spec == nil {
+		x.c.Fail("C20/spec/error", "getNodeSLOSpec(node-%d) after step %d returned spec=%v err=%v", n.idx, x.step, spec, err)
+	}
+	x.c.Count("specs_computed", 1)
+	if n.ann != "" {
+		x.c.Count("specs_computed_for_annotated_nodes", 1)
+	}
+	return spec, c20Observe(spec)
+}
+
+// recompute: nothing was changed since the spec of n was computed, only specs of other nodes were
+// computed in between; the result must be the same.
+func (x *c20Run) recompute(n *c20Node, first *c20Obs, after string) {
+	_, o := x.compute(n)
+	x.c.Count("aliasing_recomputations", 1)
+	if sec, d := o.diff(first); d != "" {
+		x.c.Report("C20/aliasing/"+sec+"/recomputed-spec-differs", "step %d (%s): the spec of node-%d (labels=%v bandwidth-annotation=%q) computed again %s, with no ConfigMap or Node change in between, differs: now vs first: %s",
+			x.step, x.stepKind, n.idx, n.node.Labels, n.ann, after, d)
+	}
+}
+
+func (x *c20Run) observe() {
+	c, r := x.c, x.r
+	nn := len(x.nodes)
+	// (A) specs computed directly, annotated and non-annotated nodes in mixed order
+	specs, obs := make([]*slov1alpha1.NodeSLOSpec, nn), make([]*c20Obs, nn)
+	order := r.Perm(nn)
+	for pos, ni := range order {
+		n := x.nodes[ni]
+		specs[ni], obs[ni] = x.compute(n)
+		x.check(n, obs[ni], n.prev, false)
+		if pos > 0 && r.Pct(50) {
+			e := order[r.Intn(pos)]
+			x.recompute(x.nodes[e], obs[e], fmt.Sprintf("after computing node-%d", ni))
+		}
+	}
+	reps := 1
+	if x.stepKind == "noop" {
+		reps = 2
+	}
+	for ; reps > 0; reps-- {
+		for _, ni := range r.Perm(nn) {
+			x.recompute(x.nodes[ni], obs[ni], "after computing every node")
+		}
+	}
+	for ni, n := range x.nodes {
+		// the object returned earlier must not have been written by later computations
+		if sec, d := c20Observe(specs[ni]).diff(obs[ni]); d != "" {
+			c.Report("C20/aliasing/"+sec+"/returned-spec-changed-by-later-computation", "step %d: the NodeSLOSpec object returned for node-%d was modified by computing other nodes' specs: now vs when returned: %s", x.step, ni, d)
+		}
+		if n.prev != nil && obs[ni].pureWithdrawal(n.prev) {
+			c.Count("node_steps_pure_withdrawal", 1)
+			c.Count("node_steps_pure_withdrawal_"+x.stepKind, 1)
+		}
+	}
+	// (B) the write path: Reconcile every node, read the stored NodeSLO back
+	stored := make([]*c20Obs, nn)
+	for _, ni := range r.Perm(nn) {
+		n := x.nodes[ni]
+		key := types.NamespacedName{Name: n.node.Name}
+		if n.hasSLO && r.Pct(6) { // the NodeSLO object is deleted by somebody: Reconcile re-creates it
+			if err := x.rec.Client.Delete(context.TODO(), &slov1alpha1.NodeSLO{ObjectMeta: metav1.ObjectMeta{Name: n.node.Name}}); err != nil {
+				c.Harness("fake API: delete NodeSLO: %v", err)
+			}
+			n.hasSLO = false
+			c.Op("step %d NodeSLO node-%d deleted", x.step, ni)
+		}
+		res, err := x.rec.Reconcile(context.TODO(), ctrl.Request{NamespacedName: key})
+		if err != nil || res.Requeue {
+			c.Fail("C20/reconcile/error", "step %d Reconcile(node-%d) = %+v, %v", x.step, ni, res, err)
+		}
+		c.Count("reconciles", 1)
+		if n.hasSLO {
+			c.Count("reconciles_existing_nodeslo", 1)
+		} else {
+			c.Count("reconciles_fresh_nodeslo", 1)
+		}
+		n.hasSLO = true
+		slo := &slov1alpha1.NodeSLO{}
+		if err := x.rec.Client.Get(context.TODO(), key, slo); err != nil {
+			c.Fail("C20/reconcile/nodeslo-missing", "step %d: no NodeSLO for node-%d after Reconcile: %v", x.step, ni, err)
+		}
+		stored[ni] = c20Observe(&slo.Spec)
+		c.Count("stored_spec_comparisons", 1)
+		x.check(n, stored[ni], n.prevStored, true)
+	}
+	for ni, n := range x.nodes {
+		slo := &slov1alpha1.NodeSLO{}
+		if err := x.rec.Client.Get(context.TODO(), types.NamespacedName{Name: n.node.Name}, slo); err != nil {
+			c.Fail("C20/reconcile/nodeslo-missing", "step %d: NodeSLO of node-%d disappeared: %v", x.step, ni, err)
+		}
+		c.Count("stored_spec_rereads", 1)
+		if sec, d := c20Observe(&slo.Spec).diff(stored[ni]); d != "" {
+			c.Report("C20/aliasing/"+sec+"/stored-spec-changed-by-other-reconcile", "step %d: the stored NodeSLO of node-%d changed while other nodes were reconciled: %s", x.step, ni, d)
+		}
+		n.prev, n.prevSpec, n.prevStored = obs[ni], specs[ni], stored[ni]
+	}
+}
+
 func TestVerifC20Layering(t *testing.T) {
-	fakeClient := fake.NewClientBuilder().WithScheme(scheme.Scheme).Build()
+	// only the two groups Reconcile touches: the fake API builds a REST mapper over the whole scheme per client
+	sch := runtime.NewScheme()
+	_ = corev1.AddToScheme(sch)
+	_ = slov1alpha1.AddToScheme(sch)
 	defaults := map[string]c20Leaves{}
 	for _, sec := range c20Sections {
 		if sec.typ != nil {
 			defaults[sec.name] = c20FlattenAny(sec.def())
 		}
 	}
-	kit.Run(t, kit.Config{Property: "C20", Unit: "layering", Quick: 3000, Thorough: 160000,
-		Rule: "one case = 2-6 ConfigMap updates through the real syncConfig, after each update getNodeSLOSpec for 3-5 nodes; per update each of the five sections is independently absent / {} / partial / full / malformed (truncated, wrong type, garbage) / unchanged text; 0-4 node entries per section with selectors over a 3x3 label universe (nil, empty, matchLabels, In/NotIn/Exists/DoesNotExist, 25% literal duplicates of an earlier entry's selector); typed strategies with a random subset of leaves, per-layer sentinel bands; distinct = (section, state, previous state, #entries, #matching entries class, sources of the expected leaves); non-trivial = the case had a malformed-after-good transition AND a node matched by >= 2 entries that differ"},
+	kit.Run(t, kit.Config{Property: "C20", Unit: "layering", Quick: 1500, Thorough: 50000,
+		Rule: "one case = 3-8 steps over 3-5 Node objects in a fake API (40% carry the node bandwidth annotation, per-node sentinel band); step kinds: ConfigMap update through the real syncConfig with each of the five sections independently absent / {} / partial / full / malformed (truncated, wrong type, garbage) / unchanged text; withdrawal-only update (a member, a node entry, the cluster layer or a whole section taken away, all other text unchanged); node relabel / annotation change; no change. After EVERY step: getNodeSLOSpec for every node in random order with interleaved and full re-computations (must be identical), then the real Reconcile for every node (existing NodeSLO, or fresh / deleted one) and the stored NodeSLO.Spec read back; computed and stored specs are both compared leaf by leaf with the reflection three-layer oracle. 0-4 node entries per section with selectors over a 3x3 label universe (nil, empty, matchLabels, In/NotIn/Exists/DoesNotExist, 25% literal duplicates of an earlier entry's selector); typed strategies with a random subset of leaves, per-layer sentinel bands; distinct = (section, state, previous state, #entries, #matching entries class, sources of the expected leaves, computed/stored phase, step kind); non-trivial = the case had a malformed-after-good transition AND a node matched by >= 2 entries that differ"},
 		func(c *kit.Case) {
 			r := c.R
-			h := NewSLOCfgHandlerForConfigMapEvent(fakeClient, DefaultSLOCfg(), &record.FakeRecorder{})
-			rec := &NodeSLOReconciler{Client: fakeClient, sloCfgCache: h}
+			x := &c20Run{c: c, r: r, defaults: defaults, st: map[string]*c20SecState{}}
 			// nodes
 			nNodes := r.Range(3, 5)
-			nodes := make([]*c20Node, nNodes)
-			for i := range nodes {
+			var objs []runtime.Object
+			for i := 0; i < nNodes; i++ {
 				var lbl map[string]string
 				if !r.Pct(12) {
 					lbl = map[string]string{}
@@ -905,257 +1578,69 @@ func TestVerifC20Layering(t *testing.T) {
 						lbl["kubernetes.io/hostname"] = fmt.Sprintf("node-%d", i)
 					}
 				}
-				nodes[i] = &c20Node{node: &corev1.Node{ObjectMeta: metav1.ObjectMeta{Name: fmt.Sprintf("node-%d", i), Labels: lbl}}, prev: map[string]c20Leaves{}}
-				c.Op("node-%d labels=%v", i, lbl)
+				n := &c20Node{idx: i, annEver: map[string]bool{}}
+				obj := &corev1.Node{ObjectMeta: metav1.ObjectMeta{Name: fmt.Sprintf("node-%d", i), Labels: lbl}}
+				if r.Pct(40) {
+					n.setAnn(c20AnnValue(r, i))
+					obj.Annotations = map[string]string{apiext.AnnotationNodeBandwidth: n.ann}
+				}
+				n.node = obj.DeepCopy()
+				objs = append(objs, obj)
+				x.nodes = append(x.nodes, n)
+				c.Op("node-%d labels=%v bandwidth-annotation=%q", i, lbl, n.ann)
 			}
-			st := map[string]*c20SecState{}
+			cl := fake.NewClientBuilder().WithScheme(sch).WithRuntimeObjects(objs...).Build()
+			x.h = NewSLOCfgHandlerForConfigMapEvent(cl, DefaultSLOCfg(), &record.FakeRecorder{})
+			x.rec = &NodeSLOReconciler{Client: cl, Scheme: sch, sloCfgCache: x.h}
 			for _, sec := range c20Sections {
-				st[sec.name] = &c20SecState{eff: &c20Eff{}, lastState: "absent"}
+				x.st[sec.name] = &c20SecState{eff: &c20Eff{}, lastState: "absent"}
 			}
-			sawMalformedAfterGood, sawDecisiveFirstWins := false, false
 			var sampleSteps []string
 
-			nUpd := r.Range(2, 6)
-			for step := 0; step < nUpd; step++ {
-				data := map[string]string{}
-				malformedNow := map[string]bool{}
-				stepDesc := ""
-				for _, sec := range c20Sections {
-					s := st[sec.name]
-					s.prevState = s.lastState
-					state := c20States[r.Weighted(13, 8, 34, 10, 22, 13)]
-					if state == "same" {
-						state = s.lastState
-						if !s.hasText { // nothing to repeat
-							state = "absent"
-						}
-						c.Count("state_"+sec.name+"_repeated", 1)
-					} else {
-						switch state {
-						case "absent":
-							s.hasText = false
-						case "empty":
-							forms := []string{"{}", "null", " { } "}
-							if sec.typ != nil {
-								forms = append(forms, `{"clusterStrategy":{}}`, `{"nodeStrategies":[]}`, `{"clusterStrategy":{},"nodeStrategies":[]}`)
-							} else {
-								forms = append(forms, `{"applications":[]}`, `{"nodeConfigs":[]}`)
-							}
-							s.lastText, s.hasText = kit.Pick(r, forms), true
-						case "partial":
-							s.lastText, s.hasText = c20GenValid(r, sec, false), true
-						case "full":
-							s.lastText, s.hasText = c20GenValid(r, sec, true), true
-						case "malformed":
-							var kind string
-							s.lastText, kind = c20GenMalformed(r, sec)
-							s.hasText = true
-							c.Count("malformed_kind_"+kind, 1)
-						}
-						s.lastState = state
-					}
-					c.Count("state_"+sec.name+"_"+state, 1)
-					// generator self check + oracle state transition
-					if s.hasText {
-						data[sec.key] = s.lastText
-						typed := reflect.New(sec.cfgTyp)
-						perr := json.Unmarshal([]byte(s.lastText), typed.Interface())
-						if state == "malformed" {
-							if perr == nil {
-								c.Harness("generator: %s text meant to be malformed parses: %s", sec.name, s.lastText)
-							}
-							malformedNow[sec.name] = true
-							if s.eff.nonEmpty {
-								c.Count("malformed_after_good", 1)
-								c.Count("malformed_after_good_"+sec.name, 1)
-								sawMalformedAfterGood = true
-							} else {
-								c.Count("malformed_after_defaults", 1)
-							}
-							// effective layers stay as they are
-						} else {
-							if perr != nil {
-								c.Harness("generator: %s text meant to be valid does not parse (%v): %s", sec.name, perr, s.lastText)
-							}
-							eff, err := c20Parse(sec, s.lastText)
-							if err != nil {
-								c.Harness("oracle cannot parse valid %s text (%v): %s", sec.name, err, s.lastText)
-							}
-							s.eff = eff
-							c.Count("leaves_set_cluster_"+sec.name, len(eff.cluster)+len(eff.cluApps))
-							for _, e := range eff.entries {
-								c.Count("leaves_set_entry_"+sec.name, len(e.leaves)+len(e.apps))
-							}
-							c.Count("entries_"+sec.name, len(eff.entries))
-						}
-						c.Op("step %d %s state=%s text=%s", step, sec.name, state, s.lastText)
-					} else {
-						s.eff = &c20Eff{}
-						c.Op("step %d %s state=absent", step, sec.name)
-					}
-					stepDesc += fmt.Sprintf("%s:%s(%d) ", sec.name, state, len(s.eff.entries))
+			nSteps := r.Range(3, 8)
+			for x.step = 0; x.step < nSteps; x.step++ {
+				x.malformedNow = map[string]bool{}
+				x.stepKind = "update"
+				if x.step > 0 {
+					x.stepKind = []string{"update", "withdraw", "relabel", "noop"}[r.Weighted(42, 24, 21, 13)]
 				}
-				if r.Pct(30) { // unrelated keys of the same ConfigMap
-					data[configuration.ColocationConfigKey] = kit.Pick(r, []string{`{"enable":true}`, "invalid_content", "{}"})
+				if x.stepKind == "withdraw" && !x.genWithdraw() {
+					x.stepKind = "update"
 				}
-				cm := &corev1.ConfigMap{
-					TypeMeta:   metav1.TypeMeta{Kind: "ConfigMap", APIVersion: "v1"},
-					ObjectMeta: metav1.ObjectMeta{Name: sloconfig.SLOCtrlConfigMap, Namespace: sloconfig.ConfigNameSpace, ResourceVersion: fmt.Sprint(step + 1)},
-					Data:       data,
+				switch x.stepKind {
+				case "update":
+					x.genUpdate()
+					x.sync()
+				case "withdraw":
+					c.Count("withdrawal_only_updates", 1)
+					x.sync()
+				case "relabel":
+					x.relabel()
+				case "noop":
+					c.Op("step %d nothing changes", x.step)
 				}
-				changed := h.syncNodeSLOSpecIfChanged(cm)
-				c.Op("step %d syncConfig -> changed=%v", step, changed)
-				c.Count("sync_calls", 1)
-				if changed {
-					c.Count("sync_changed", 1)
-				}
-				if len(sampleSteps) < 6 {
-					sampleSteps = append(sampleSteps, strings.TrimSpace(stepDesc))
-				}
-
-				// observe every node
-				for ni, n := range nodes {
-					var old *slov1alpha1.NodeSLOSpec
-					if n.havePrev && r.Bool() {
-						old = n.prevSpec // Reconcile passes the existing NodeSLO spec when the object exists
+				c.Count("steps_"+x.stepKind, 1)
+				if len(sampleSteps) < 8 {
+					d := x.stepKind
+					if x.stepKind == "update" || x.stepKind == "withdraw" {
+						d += ":"
+						for _, sec := range c20Sections {
+							d += fmt.Sprintf(" %s=%s(%d)", sec.name, x.st[sec.name].lastState, len(x.st[sec.name].eff.entries))
+						}
 					}
-					spec, err := rec.getNodeSLOSpec(n.node, old)
-					if err != nil || spec == nil {
-						c.Fail("C20/spec/error", "getNodeSLOSpec(node-%d) after step %d returned spec=%v err=%v", ni, step, spec, err)
-					}
-					c.Count("specs_computed", 1)
-					for _, sec := range c20Sections {
-						s := st[sec.name]
-						m := s.eff.matches(n.node.Labels)
-						switch {
-						case len(m) == 0:
-							c.Count("node_matched_by_0_entries", 1)
-						case len(m) == 1:
-							c.Count("node_matched_by_1_entry", 1)
-						default:
-							c.Count("node_matched_by_2plus_entries", 1)
-						}
-						phase := "layering"
-						if malformedNow[sec.name] {
-							phase = "after-malformed"
-						}
-						if sec.typ == nil {
-							got := c20CanonApps(spec.HostApplications)
-							if malformedNow[sec.name] && n.havePrev {
-								c.Count("keep_old_comparisons", 1)
-								if c20SameApps(got, n.prevApps) {
-									// unchanged by the unparseable update: correct; the layering of this value was decided at the previous update
-									c.Count("sections_ok", 1)
-									continue
-								}
-								c.Report("C20/hostapp/after-malformed/changed", "step %d node-%d labels=%v: host applications changed by an update whose %s text cannot be parsed: before %v, after %v; text=%s",
-									step, ni, n.node.Labels, sec.key, n.prevApps, got, s.lastText)
-							}
-							c20CheckApps(c, sec, s.eff, m, got, phase, step, ni, n, &sawDecisiveFirstWins)
-							n.prevApps = got
-							continue
-						}
-						got := c20FlattenAny(sec.get(spec))
-						// expected leaves
-						names := []string{"default"}
-						layers := []c20Leaves{defaults[sec.name]}
-						if s.eff.fromText {
-							names, layers = append(names, "cluster"), append(layers, s.eff.cluster)
-							if len(m) > 0 {
-								names, layers = append(names, "entry"), append(layers, s.eff.entries[m[0]].leaves)
-							}
-						}
-						want := c20Expect(names, layers)
-						if len(m) >= 2 && !reflect.DeepEqual(s.eff.entries[m[0]].leaves, s.eff.entries[m[1]].leaves) {
-							c.Count("first_wins_decisive", 1)
-							sawDecisiveFirstWins = true
-						}
-						srcMask := map[string]bool{}
-						nMis := 0
-						// An unparseable update that left the delivered section exactly as it was is
-						// correct by the statement's last clause; whether that unchanged value is the
-						// right layering was already decided (and reported) at the previous update.
-						unchangedAfterMalformed := malformedNow[sec.name] && n.havePrev && reflect.DeepEqual(got, n.prev[sec.name])
-						mismatch := func(path, wantSrc, wantVal string, gotVal string, present bool) {
-							nMis++
-							if nMis > 3 || unchangedAfterMalformed {
-								return
-							}
-							cls := c20Classify(s.eff, defaults[sec.name], m, path, gotVal, present, n.prev[sec.name])
-							sig := fmt.Sprintf("C20/%s/%s/want-%s-got-%s/%s", sec.name, phase, wantSrc, cls, c20LeafName(path))
-							first := "none"
-							if len(m) > 0 {
-								first = s.eff.entries[m[0]].name
-							}
-							c.Report(sig, "step %d node-%d labels=%v section %s leaf %q: want %s value %q, delivered %q (present=%v, looks like: %s); matching entries %v (first=%s); state=%s; effective text or last text=%s",
-								step, ni, n.node.Labels, sec.key, path, wantSrc, wantVal, gotVal, present, cls, m, first, s.lastState, s.lastText)
-						}
-						for _, p := range c20SortedKeys(want.must) {
-							c.Count("leaf_comparisons", 1)
-							srcMask[want.mustSrc[p]] = true
-							c.Count("expected_from_"+want.mustSrc[p], 1)
-							gv, ok := got[p]
-							if !ok || gv != want.must[p] {
-								mismatch(p, want.mustSrc[p], want.must[p], gv, ok)
-							}
-						}
-						for _, p := range c20SortedKeys(got) {
-							if _, ok := want.must[p]; ok {
-								continue
-							}
-							c.Count("leaf_comparisons", 1)
-							if mv, ok := want.may[p]; ok && mv == got[p] {
-								c.Count("container_member_kept_from_lower_layer", 1)
-								continue
-							}
-							mismatch(p, "absent", "", got[p], true)
-						}
-						for p := range want.may {
-							if _, ok := got[p]; !ok {
-								c.Count("container_member_of_lower_layer_dropped", 1)
-							}
-						}
-						// leak accounting: leaves set by entries that do not apply to this node
-						for ei := range s.eff.entries {
-							if len(m) > 0 && ei == m[0] {
-								continue
-							}
-							c.Count("leak_probes", len(s.eff.entries[ei].leaves))
-						}
-						if nMis == 0 {
-							c.Count("sections_ok", 1)
-						}
-						// literal keep-old check
-						if malformedNow[sec.name] && n.havePrev {
-							c.Count("keep_old_comparisons", 1)
-							if !unchangedAfterMalformed {
-								c.Report("C20/"+sec.name+"/after-malformed/changed", "step %d node-%d labels=%v: section %s delivered to the node changed by an update whose text cannot be parsed.\nbefore: %v\nafter:  %v\ntext=%s",
-									step, ni, n.node.Labels, sec.key, c20Show(n.prev[sec.name]), c20Show(got), s.lastText)
-							}
-						}
-						n.prev[sec.name] = got
-						mc := len(m)
-						if mc > 2 {
-							mc = 2
-						}
-						c.Seen(sec.name, s.lastState, s.prevState, len(s.eff.entries), mc, srcMask["default"], srcMask["cluster"], srcMask["entry"], len(want.may) > 0, phase)
-					}
-					// extensions: no extender is registered in this process, nothing may be delivered
-					if len(globalNodeSLOMergedExtender) == 0 && spec.Extensions != nil && len(spec.Extensions.Object) != 0 {
-						c.Report("C20/extensions/unexpected", "step %d node-%d: extensions delivered without any registered extender: %v", step, ni, spec.Extensions.Object)
-					}
-					n.prevSpec, n.havePrev = spec, true
+					sampleSteps = append(sampleSteps, d)
 				}
+				x.observe()
 			}
-			if sawMalformedAfterGood && sawDecisiveFirstWins {
+			if x.sawMalformedAfterGood && x.sawDecisiveFirstWins {
 				c.NonTrivial()
 			}
 			if c.K < 2 {
 				lb := []string{}
-				for _, n := range nodes {
-					lb = append(lb, fmt.Sprint(n.node.Labels))
+				for _, n := range x.nodes {
+					lb = append(lb, fmt.Sprintf("%v ann=%q", n.node.Labels, n.ann))
 				}
-				c.Sample(map[string]any{"nodes": lb, "updates": sampleSteps})
+				c.Sample(map[string]any{"nodes": lb, "steps": sampleSteps})
 			}
 		})
 }
@@ -1205,7 +1690,7 @@ func c20Classify(eff *c20Eff, def c20Leaves, m []int, path, val string, present 
 // applications => exactly its list; no matching entry => exactly the cluster list. A matching
 // entry WITHOUT applications is not decided by the statement's whole-value reading (empty list vs
 // cluster fallback): both are accepted, nothing else is.
-func c20CheckApps(c *kit.Case, sec *c20Section, eff *c20Eff, m []int, got []string, phase string, step, ni int, n *c20Node, decisive *bool) {
+func c20CheckApps(c *kit.Case, sec *c20Section, eff *c20Eff, m []int, got, prevApps []string, phase string, step, ni int, n *c20Node, decisive *bool) {
 	c.Count("leaf_comparisons", 1)
 	fail := func(kind string, want []string) {
 		src := "other"
@@ -1218,11 +1703,13 @@ func c20CheckApps(c *kit.Case, sec *c20Section, eff *c20Eff, m []int, got []stri
 			src = "empty"
 		} else if reflect.DeepEqual(got, eff.cluApps) {
 			src = "cluster"
+		} else if src == "other" && prevApps != nil && c20SameApps(got, prevApps) {
+			src = "previous"
 		}
 		c.Report(fmt.Sprintf("C20/hostapp/%s/want-%s-got-%s", phase, kind, src), "step %d node-%d labels=%v host applications: want (%s) %v, delivered %v; matching entries %v",
 			step, ni, n.node.Labels, kind, want, got, m)
 	}
-	if len(m) >= 2 && !reflect.DeepEqual(eff.entries[m[0]].apps, eff.entries[m[1]].apps) {
+	if !strings.HasPrefix(phase, "stored") && len(m) >= 2 && !reflect.DeepEqual(eff.entries[m[0]].apps, eff.entries[m[1]].apps) {
 		c.Count("first_wins_decisive", 1)
 		*decisive = true
 	}
